@@ -22,7 +22,10 @@ example : G.rust_I32FromBool ≠ [] := by decide
      theorem rust_BoolFromI32 : ∀ e ∈ G.rust_BoolFromI32, e.Correct
    Rust emits `_rt::bool_lift(x as u8)`: the core i32 is truncated to its low byte *before* the test, and
    `bool_lift` is `val != 0` in release builds but `match val { 0 => false, 1 => true, _ => panic!(..) }` with debug
-   assertions.  The canonical ABI lifts `bool` as `c != 0` over the whole i32 (flat) / the whole byte (memory). -/
+   assertions.  The canonical ABI lifts `bool` as `c != 0` over the whole i32 (flat) / the whole byte (memory).
+   NON-CANONICAL INPUT ONLY: a conforming host's lower_flat / store produces only 0 or 1 for a bool (fused adapters
+   re-canonicalise), and `…_partial` below proves correctness on exactly those encodings; the deviation exists only under
+   the property's quantifier over all 2^32 core values and is not a defect of generated components under conforming hosts. -/
 /-- witness: flat position, release build, core value 0x100 lifts to `false`; the canonical ABI says `true` -/
 theorem rust_BoolFromI32_full_false : ¬ ∀ e ∈ G.rust_BoolFromI32, e.Correct := by
   intro h
